@@ -646,6 +646,7 @@ Proof. vm_compute. repeat split; reflexivity. Qed.
    the statement's two *)
 Lemma per_call_and_exempt_members :
   names_with is_per_call session_classes = per_call_members /\
+  names_with is_rebuilt session_classes = rebuilt_session_members /\
   names_with is_per_call run_classes = [] /\
   names_with is_exempt run_classes = exempt_members /\
   names_with is_exempt session_classes = [].
@@ -709,4 +710,26 @@ Proof.
   destruct (reachable_ok _ _ _ H) as [Hp _]. destruct (post_inv_persistable _ Hp) as [Hpu Hpp].
   rewrite (restore_persist_known _ Hpp) in E. inversion E. unfold reread. cbn [lv_core].
   destruct (lv_core lv) as [st ty tg fl rs inp pu]. reflexivity.
+Qed.
+
+(* no engine call changes whether parentRun is loaded: NewSession and ReadSession have loaded it whenever the trigger carries
+   a run summary, so prepareForSprint at the start of Resume finds nothing to do — in particular a REJECTED resume leaves
+   ParentRun() (and @parent of a top-level run) as it was (C10: "the session is left exactly as it was") *)
+Lemma resume_keeps_parent : forall a tmo lv r,
+  reachable a tmo lv -> t_parent (snd (live_resume a lv r tmo)) = t_parent (lv_tr lv).
+Proof.
+  intros a tmo lv r H. pose proof (reachable_parent_exact _ _ _ H) as E.
+  unfold live_resume. cbn [snd]. unfold transient_in_resume, prepare_for_sprint.
+  destruct (resume_applies a (lv_core lv) r); cbn [t_parent]; rewrite E; destruct (is_flow_action _); reflexivity.
+Qed.
+
+Lemma rejected_resume_leaves_session : forall a tmo lv r code,
+  reachable a tmo lv -> fst (live_resume a lv r tmo) = Rejected code ->
+  exists lv', after_call lv (fst (live_resume a lv r tmo)) (snd (live_resume a lv r tmo)) = Some lv' /\
+              lv_core lv' = lv_core lv /\ lv_batch_trigger lv' = lv_batch_trigger lv /\
+              t_parent (lv_tr lv') = t_parent (lv_tr lv).
+Proof.
+  intros a tmo lv r code H E. pose proof (resume_keeps_parent a tmo lv r H) as P.
+  rewrite E. cbn [after_call]. eexists. split; [reflexivity|]. cbn [lv_core lv_batch_trigger lv_tr].
+  repeat split. exact P.
 Qed.
